@@ -179,8 +179,37 @@ def rewrite_require_macros(body, unit, log):
     return out
 
 
+def rewrite_debug_asserts(body, unit, log):
+    """R7: `debug_assert!(c, "msg"...)` has no effect in release builds; it is turned into a Verus
+    `assert(c)` so that a debug assertion that could fail is found. `debug_assert_eq!(a, b, ..)` likewise."""
+    pat = re.compile(r'\b(debug_assert|debug_assert_eq)!\s*\(')
+    out, i, n = '', 0, 0
+    while True:
+        m = pat.search(body, i)
+        if not m:
+            out += body[i:]
+            break
+        out += body[i:m.start()]
+        close = extract.match_brace(body, m.end() - 1, '(', ')')
+        args = _split_top_commas(body[m.end():close])
+        j = close + 1
+        if j < len(body) and body[j] == ';':
+            j += 1
+        if m.group(1) == 'debug_assert':
+            out += f'assert({args[0]});'
+        else:
+            out += f'assert(({args[0]}) == ({args[1]}));'
+        i = j
+        n += 1
+    if n:
+        log.append(f'R7 x{n} in {unit["id"]} (debug_assert! -> Verus assert; message dropped)')
+    return out
+
+
 def rewrite_body(body, unit, log):
     body = rewrite_require_macros(body, unit, log)
+    if not unit.get('keep_debug_asserts'):
+        body = rewrite_debug_asserts(body, unit, log)
     for rid, pat, rep, why in GLOBAL_REWRITES:
         cnt = len(re.findall(pat, body))
         if cnt:
